@@ -166,8 +166,10 @@ def project_calls_group(gid, runs):
 def run_flow_pair_member(cfg, ids, role):
     """construct + (train) + sample a real flow; returns a run record with only a result event."""
     import random as _r
-    c = dict(backend="zuko", dtype="float32", dims=2, seed=3, epochs=2, n=32)
+    c = dict(backend="zuko", dtype="float32", dims=2, seed=3, epochs=2, n=32, seed_type="int")
     c.update(cfg)
+    # a seed is a seed whichever integer type it has (e.g. taken from rng.integers or np.arange)
+    seed_val = {"int": int, "np.int64": np.int64, "np.uint32": np.uint32}[c["seed_type"]](c["seed"])
     rng = np.random.default_rng(c["seed"] + 100)
     data = rng.normal(0.5, 1.0, size=(96, c["dims"]))
     status, exc = "ok", ""
@@ -177,7 +179,7 @@ def run_flow_pair_member(cfg, ids, role):
             import torch
             torch.set_num_threads(1)
             from aspire.flows.torch.flows import ZukoFlow
-            fl = ZukoFlow(c["dims"], seed=c["seed"], dtype=c["dtype"], hidden_features=[8, 8])
+            fl = ZukoFlow(c["dims"], seed=seed_val, dtype=c["dtype"], hidden_features=[8, 8])
             hist = fl.fit(data, n_epochs=c["epochs"], batch_size=32)
             x, lq = fl.sample_and_log_prob(c["n"])
             lp = fl.log_prob(data[:8])
@@ -185,7 +187,7 @@ def run_flow_pair_member(cfg, ids, role):
             import jax
             get_xp("jax")
             from aspire.flows.jax.flows import FlowJax
-            fl = FlowJax(c["dims"], key=jax.random.key(c["seed"]), dtype=c["dtype"], nn_width=8, nn_depth=1)
+            fl = FlowJax(c["dims"], key=jax.random.key(int(seed_val)), dtype=c["dtype"], nn_width=8, nn_depth=1)
             hist = fl.fit(data, max_epochs=c["epochs"], batch_size=32, show_progress=False)
             x, lq = fl.sample_and_log_prob(c["n"])
             lp = fl.log_prob(data[:8])
